@@ -1,14 +1,18 @@
 #!/bin/sh
-# tools/full_run.sh <seed> <tier> : run all 19 registered checks sequentially, log rc + verdict lines
+# tools/full_run.sh <seed> <tier> [props...] : run the registered checks sequentially from the directory this script
+# lives in (so that a `vp run` snapshot uses its own copy); rc + verdict lines go to .cache/logs/full_<tier>_seed<seed>.txt
+HERE="$(cd "$(dirname "$0")/.." && pwd)"
 SEED=${1:-0}; TIER=${2:-quick}
-mkdir -p /verif/.cache/logs
-OUT=/verif/.cache/logs/full_${TIER}_seed${SEED}.txt
-: > $OUT
-for p in C03 C04 C05 C06 C07 C08 C09 C10 C11 C12 C17 C01 C02 C13 C14 C15 C16 C18 C19; do
+if [ $# -ge 2 ]; then shift 2; else shift $#; fi
+PROPS=${*:-C03 C04 C05 C06 C07 C08 C09 C10 C11 C12 C17 C01 C02 C13 C14 C15 C16 C18 C19}
+mkdir -p "$HERE/.cache/logs"
+OUT="$HERE/.cache/logs/full_${TIER}_seed${SEED}.txt"
+: > "$OUT"
+for p in $PROPS; do
   s=$(date +%s)
-  VERIF_SEED=$SEED /verif/check $p --tier $TIER > /verif/.cache/logs/run_${p}_${SEED}.out 2> /verif/.cache/logs/run_${p}_${SEED}.err
+  VERIF_SEED=$SEED "$HERE/check" $p --tier $TIER > "$HERE/.cache/logs/run_${p}_${SEED}.out" 2> "$HERE/.cache/logs/run_${p}_${SEED}.err"
   rc=$?
-  echo "$p rc=$rc wall=$(( $(date +%s) - s ))s" >> $OUT
-  grep "VIOLATION\|MACHINERY" /verif/.cache/logs/run_${p}_${SEED}.out /verif/.cache/logs/run_${p}_${SEED}.err | cut -c1-300 >> $OUT
+  echo "$p rc=$rc wall=$(( $(date +%s) - s ))s" >> "$OUT"
+  grep "VIOLATION\|MACHINERY\|KNOWN-FINDING" "$HERE/.cache/logs/run_${p}_${SEED}.out" "$HERE/.cache/logs/run_${p}_${SEED}.err" | cut -c1-300 >> "$OUT"
 done
-echo DONE >> $OUT
+echo DONE >> "$OUT"
